@@ -175,7 +175,7 @@ def scenarios(bindir):
     return [l.strip() for l in p.stdout.splitlines() if l.strip()]
 
 
-def run_one(chk, bindir, scen, k=None, errno=None, tag="dry", value=None, call=None, second=None, prior=None):
+def run_one(chk, bindir, scen, k=None, errno=None, tag="dry", value=None, call=None, second=None, prior=None, limit=None):
     root = tempfile.mkdtemp(prefix="fdops-", dir=chk.work)
     log = os.path.join(chk.work, "log_%s_%s.ndjson" % (scen, tag))
     rules = []
@@ -189,7 +189,7 @@ def run_one(chk, bindir, scen, k=None, errno=None, tag="dry", value=None, call=N
         rules.append("win=%s,task=1,src=exe,k=%d,ret=-%d" % (scen, second["k"], second["errno"]))
     cmd = [os.path.join(bindir, "fdops"), "run", scen, root] + ([prior] if prior else [])
     try:
-        rc, so, se, ev = SJ.run_traced(cmd, log, rules=rules, timeout=25)
+        rc, so, se, ev = SJ.run_traced(cmd, log, rules=rules, timeout=int(limit or 25 * SJ.load_factor()))
     finally:
         # (rm copes with the 2 000-level directory trees of the extreme-path scenarios, shutil does not)
         import subprocess
@@ -290,6 +290,9 @@ def run(tier):
         for s, r in zip(scens, ex.map(lambda s: run_one(chk, bindir, s), scens)):
             evs, calls, status, _, fm = window(r)
             if status != "complete":
+                r = run_one(chk, bindir, s, limit=max(125, 125 * SJ.load_factor()))   # once more, alone, long limit
+                evs, calls, status, _, fm = window(r)
+            if status != "complete":
                 # the environment does not support the scenario's set-up (no loopback, no /dev/ptmx, ...)
                 skipped.append({"scenario": s, "status": status, "stderr": r["stderr"][-300:]})
                 continue
@@ -350,18 +353,18 @@ def run(tier):
         raise core.ToolError("only %d of %d scenarios complete without faults: %s" % (len(dry), len(scens), json.dumps(skipped[:5])))
     scens = [s for s in scens if s in dry]
     # 2. faulted runs
-    def exec_item(it):
-        if it["k"] is None and not it.get("prior"):
+    def exec_item(it, limit=None):
+        if it["k"] is None and not it.get("prior") and limit is None:
             return dry[it["scenario"]][0]
         tagp = ("p" + it["prior"] + "_") if it.get("prior") else ""
         if it["k"] is None:
-            return run_one(chk, bindir, it["scenario"], tag=tagp + "nofault", prior=it.get("prior"))
+            return run_one(chk, bindir, it["scenario"], tag=tagp + "nofault", prior=it.get("prior"), limit=limit)
         if "value" in it:
-            return run_one(chk, bindir, it["scenario"], it["k"], 0, tagp + "k%d_v%d" % (it["k"], it["value"]), value=it["value"], call=it["call"])
+            return run_one(chk, bindir, it["scenario"], it["k"], 0, tagp + "k%d_v%d" % (it["k"], it["value"]), value=it["value"], call=it["call"], limit=limit)
         sec = it.get("second")
         return run_one(chk, bindir, it["scenario"], it["k"], it["errno"],
                        tagp + "k%d_e%d" % (it["k"], it["errno"]) + ("_k%d_e%d" % (sec["k"], sec["errno"]) if sec else ""),
-                       second=sec, prior=it.get("prior"))
+                       second=sec, prior=it.get("prior"), limit=limit)
 
     with ThreadPoolExecutor(max_workers=8) as ex:
         runs = list(ex.map(exec_item, plan))
@@ -385,6 +388,19 @@ def run(tier):
     with ThreadPoolExecutor(max_workers=8) as ex:
         runs += list(ex.map(exec_item, pairs))
     plan += pairs
+    # wall-clock: a window cut short by the tracer's time limit is never a verdict (it is listed as
+    # incomplete); to keep the coverage under load such a run is repeated ALONE with a >= 5x limit
+    trips = []
+    for n, (it, r) in enumerate(zip(plan, runs)):
+        if window(r)[2] == "complete":
+            continue
+        for _ in range(2):
+            r2 = exec_item(it, limit=max(125, 125 * SJ.load_factor()))
+            if window(r2)[2] == "complete":
+                runs[n] = r2
+                trips.append({"scenario": it["scenario"], "k": it["k"], "errno": it.get("errname")})
+                break
+    chk.extra["wall_clock_trips_not_reproduced"] = trips
     # 3. trace for TLC
     trace, meta = [], {}
     incomplete = []
